@@ -1,4 +1,5 @@
 import QuinnModel.Conn.Amplification
+import QuinnModel.Conn.Lifecycle
 import QuinnModel.Util
 /- Trace-validation front ends for the Connection-level skeleton models (stateless: each request
    carries the observed before-state; the model prints the after-state it predicts). -/
@@ -35,6 +36,60 @@ def amp : List String → String
       let p' := Amp.step p (.poll seg sizes)
       s!"{b01 p'.validated} {p'.sent} {p'.recvd} {em.length}"
     | _, _, _, _, _, _ => "bad-op"
+  | _ => "bad-op"
+
+def optNat (s : String) : Option (Option Nat) :=
+  if s == "-" then some none else (s.toNat?).map some
+
+def lifeParse : List String → Option Life.L
+  | [st, err, cf, ct, it] =>
+    match st.toNat?, err.toNat?, cf.toNat?, optNat ct, optNat it with
+    | some st, some err, some cf, some ct, some it =>
+      let st := match st with
+        | 0 => Life.St.handshake | 1 => Life.St.established | 2 => Life.St.closed
+        | 3 => Life.St.draining | _ => Life.St.drained
+      some ⟨st, err == 1, cf == 1, ct, it, 0, 0, false⟩
+    | _, _, _, _, _ => none
+  | _ => none
+
+def lifeShow (l : Life.L) : String :=
+  let st := match l.st with
+    | .handshake => 0 | .established => 1 | .closed => 2 | .draining => 3 | .drained => 4
+  let o := fun (x : Option Nat) => match x with | some n => toString n | none => "-"
+  s!"{st} {b01 l.error} {b01 l.closeFlag} {o l.closeTimer} {o l.idleTimer}"
+
+/-- `life <event …> <before-state>` prints the after-state predicted by `Life.step` -/
+def life : List String → String
+  | "close" :: now :: pto3 :: st =>
+    match now.toNat?, pto3.toNat?, lifeParse st with
+    | some now, some pto3, some l => lifeShow (Life.step l (.close now pto3))
+    | _, _, _ => "bad-op"
+  | "timeout" :: now :: st =>
+    match now.toNat?, lifeParse st with
+    | some now, some l => lifeShow (Life.step l (.timeout now))
+    | _, _ => "bad-op"
+  | "peerclose" :: now :: pto3 :: st =>
+    match now.toNat?, pto3.toNat?, lifeParse st with
+    | some now, some pto3, some l => lifeShow (Life.step l (.peerClose now pto3))
+    | _, _, _ => "bad-op"
+  | "peercloseearly" :: now :: pto3 :: st =>
+    match now.toNat?, pto3.toNat?, lifeParse st with
+    | some now, some pto3, some l => lifeShow (Life.step l (.peerCloseEarly now pto3))
+    | _, _, _ => "bad-op"
+  | "pkterr" :: kind :: now :: pto3 :: same :: st =>
+    match now.toNat?, pto3.toNat?, same.toNat?, lifeParse st with
+    | some now, some pto3, some same, some l =>
+      let k := if kind == "drained" then Life.PktErr.toDrained else if kind == "closed" then Life.PktErr.toClosed else Life.PktErr.toDraining
+      lifeShow (Life.step l (.pktErr k now pto3 (same == 1)))
+    | _, _, _, _ => "bad-op"
+  | "closeframe" :: st =>
+    match lifeParse st with
+    | some l => lifeShow (Life.step l .closeFrameWhileClosed)
+    | none => "bad-op"
+  | "authed" :: now :: idle :: st =>
+    match now.toNat?, idle.toNat?, lifeParse st with
+    | some now, some idle, some l => lifeShow (Life.step l (.authed now idle))
+    | _, _, _ => "bad-op"
   | _ => "bad-op"
 
 end QM.Drv
